@@ -132,7 +132,16 @@ def pick_hash_name(r, toy):
 def structured_scalar(r, n, allow_neg=True, hi_mult=4):
     """Scalars that stress recoding and reduction: dense around 0, n, 2n on
     small n; bit patterns; random up to hi_mult*n; negatives."""
-    c = r.randrange(12)
+    c = r.randrange(13)
+    if c == 12:
+        # far outside the reduction window, both signs
+        v = r.choice([r.randrange(4 * n, 64 * n + 1),
+                      (1 << (2 * n.bit_length() + r.randrange(0, 9))) +
+                      r.randrange(-2, 3),
+                      n * r.randrange(5, 40) + r.randrange(-2, 3)])
+        if allow_neg and r.random() < 0.5:
+            v = -v
+        return v
     if c == 0:
         v = r.choice([0, 1, 2, 3, n - 1, n, n + 1, 2 * n - 1, 2 * n,
                       2 * n + 1, 2 * n + 3, n - 2, n // 2, (n + 1) // 2])
